@@ -35,7 +35,7 @@ def dcase(what, **kw):
 def cases(tier, rng):
     for deco in ("require", "ensure", "invariant"):
         for e in ERRS:
-            for v in range(4):
+            for v in range(10 if e == "otherValue" else 4):
                 for en in (True, False):
                     yield "error_arg", dcase("error_arg", deco=deco, err=e, variant=v, enabled=en)
     for args, mand in [([], []), (["self"], ["self"]), (["self"], []), (["x"], ["x"]), (["self", "x"], ["self", "x"]),
@@ -98,6 +98,11 @@ def cases(tier, rng):
                             lv["pre"].append(genck.contract(3, [], err={"cls": {"subBase": True, "truthy": True}}))
                     c["misuse"] = mis
                     yield "call_" + mis, genck.fill_oracle_defaults(c)
+                    if mis.startswith("kw_"):
+                        # the same call made re-entrantly (from one of the function's own contracts): still rejected
+                        c2 = copy.deepcopy(c)
+                        c2["inProgress"] = [c2["fid"]]
+                        yield "call_" + mis + "_reentrant", genck.fill_oracle_defaults(c2)
 
 
 def search_cases(rng, hint, n):
